@@ -3,7 +3,8 @@
 proof:   lean/Koreo/Props/C07.lean over `Koreo.ResourceFn.decide` (finite table; every clause for the whole
          table) + `reconcile_follows_table` (the payload-level model refines the table)
 tie:     (a) flag/delay defaults regenerated from prepare.py / constants.py / the CRD (extractors/RfDefaults.py),
-         (b) EXHAUSTIVE on every run: every cell of the table as a real prepared ResourceFunction (flags
+         (b) EXHAUSTIVE on every run: every cell of the table (flags x policy x precondition x create.overlay written x
+             plural given x situation incl. a lost creation race) as a real prepared ResourceFunction (flags
              written into the real spec, once explicitly and once with every default-valued key omitted)
              against a freshly seeded in-memory cluster; action (from the request log), outcome class and
              Retry delay compared with the model
@@ -20,7 +21,9 @@ import gen_rf678 as g
 
 PREFIX = "C7"
 POLICIES = ("patch", "recreate", "never")
-SITUATIONS = ("absent", "presentMatching", "presentDrifted", "presentNoOwnerRef")
+SITUATIONS = ("absent", "presentMatching", "presentDrifted", "presentNoOwnerRef", "absentConflict")
+ABSENT = ("absent", "absentConflict")     # absent as far as the load can tell
+CREATE_OVERLAY = {"metadata": {"labels": {"created-by": "koreo"}}, "spec": {"onCreate": True}}
 DEFAULTS = {"readonly": False, "owned": True, "namespaced": True, "createEnabled": True, "deleteIfExists": False,
             "update": "patch"}
 CREATE_DELAY, PATCH_DELAY, RECREATE_DELAY, PRECOND_DELAY = 11, 13, 17, 7
@@ -32,9 +35,21 @@ def cells():
     for ro, ow, ns, ce, de in itertools.product((False, True), repeat=5):
         for pol in POLICIES:
             for pp in (True, False):
-                for sit in SITUATIONS:
-                    yield {"readonly": ro, "owned": ow, "namespaced": ns, "createEnabled": ce,
-                           "deleteIfExists": de, "update": pol, "precond": pp, "sit": sit}
+                for co, pg in itertools.product((False, True), repeat=2):
+                    for sit in SITUATIONS:
+                        yield {"readonly": ro, "owned": ow, "namespaced": ns, "createEnabled": ce,
+                               "deleteIfExists": de, "update": pol, "precond": pp, "createOverlay": co,
+                               "pluralGiven": pg, "sit": sit}
+
+
+def kind_of(cell: dict, variant: str, idx: int) -> tuple[str, str]:
+    """With the plural omitted the first reconcile of a kind discovers it and memoises it on the kr8s
+    class (which kr8s finds again for every later function of that kind), so such runs get a kind of
+    their own; with the plural given one kind per scope will do."""
+    if cell["pluralGiven"]:
+        return g.kind_for(PREFIX, cell["namespaced"])
+    kind = f"C7x{idx}{variant[0]}{'Ns' if cell['namespaced'] else 'Cl'}"
+    return kind, kind.lower() + "s"
 
 
 def build(cell: dict, variant: str, idx: int):
@@ -48,7 +63,14 @@ def build(cell: dict, variant: str, idx: int):
             written[k] = cell[k]
         else:
             written[k] = None
-    api = g.api_config(PREFIX, cell["namespaced"], namespace=g.NS if cell["namespaced"] else None, **flags)
+    kind, plural = kind_of(cell, variant, idx)
+    api = {"apiVersion": g.API_VERSION, "kind": kind, "name": g.NAME}
+    if cell["pluralGiven"]:
+        api["plural"] = plural
+    if cell["namespaced"]:
+        api["namespace"] = g.NS
+    api.update(flags)
+    written["pluralGiven"] = cell["pluralGiven"]
     spec = {"apiConfig": api, "resource": {"spec": copy.deepcopy(TARGET_SPEC)}}
     # create
     if explicit:
@@ -59,6 +81,9 @@ def build(cell: dict, variant: str, idx: int):
         written["createEnabled"], written["createDelay"] = False, None
     else:
         written["createEnabled"], written["createDelay"] = None, None
+    written["createOverlay"] = cell["createOverlay"]
+    if cell["createOverlay"]:     # a create-only overlay left in the spec, whether or not create is enabled
+        spec.setdefault("create", {})["overlay"] = copy.deepcopy(CREATE_OVERLAY)
     # update
     pol = cell["update"]
     if explicit:
@@ -79,11 +104,16 @@ def build(cell: dict, variant: str, idx: int):
     return spec, written, kind
 
 
-def seed_objects(cell: dict, idx: int) -> dict:
+def live_key(cell: dict, variant: str, idx: int) -> tuple:
+    _, plural = kind_of(cell, variant, idx)
+    return (g.API_VERSION, plural, g.NS if cell["namespaced"] else None, g.NAME)
+
+
+def seed_objects(cell: dict, variant: str, idx: int, competitor: bool = False) -> dict:
     sit = cell["sit"]
-    if sit == "absent":
+    if sit in ABSENT and not competitor:
         return {}
-    kind, _ = g.kind_for(PREFIX, cell["namespaced"])
+    kind, _ = kind_of(cell, variant, idx)
     md = {"name": g.NAME, "uid": "uid-live", "resourceVersion": "7", "labels": {"seen": "yes"}}
     if cell["namespaced"]:
         md["namespace"] = g.NS
@@ -103,18 +133,32 @@ def seed_objects(cell: dict, idx: int) -> dict:
             live["spec"]["d"]["e"] = False
         else:
             del live["spec"]["b"]
-    return {g.key_for(PREFIX, cell["namespaced"]): live}
+    return {live_key(cell, variant, idx): live}
 
 
 def observe(cell: dict, variant: str, idx: int) -> dict:
     spec, written, pkind = build(cell, variant, idx)
-    obs = g.reconcile(spec, objects=seed_objects(cell, idx), inputs={"go": cell["precond"]},
-                      owner=(g.NS, g.OWNER_REF))
+    configure = None
+    if cell["sit"] == "absentConflict":
+        # a competitor creates the object after our load and before our POST arrives: the server answers 409
+        theirs = seed_objects(cell, variant, idx, competitor=True)
+
+        def configure(c):
+            def arrive(i, method, key):
+                if method == "POST":
+                    c.objects.update(copy.deepcopy(theirs))
+                return 0
+            c.latency = arrive
+    obs = g.reconcile(spec, objects=seed_objects(cell, variant, idx), inputs={"go": cell["precond"]},
+                      owner=(g.NS, g.OWNER_REF), configure=configure)
     if not obs["prepared"]:
-        return {"written": written, "pkind": pkind, "action": "not-prepared", "outcome": obs["prepare"], "spec": spec}
-    return {"written": written, "pkind": pkind, "action": g.action_of(obs["cluster"]),
-            "outcome": g.outcome_view(obs), "spec": spec,
-            "log": [(e["method"], e["plural"], e["name"], e["namespace_arg"]) for e in obs["cluster"].log]}
+        return {"written": written, "pkind": pkind, "action": "not-prepared", "outcome": obs["prepare"], "spec": spec,
+                "lookups": 0}
+    c = obs["cluster"]
+    return {"written": written, "pkind": pkind, "action": g.action_of(c),
+            "outcome": g.outcome_view(obs), "spec": spec, "lookups": len(c.lookups),
+            "statuses": [(e["method"], e["applied"]) for e in c.log if e["method"] not in ("GET", "LOOKUP")],
+            "log": [(e["method"], e["plural"], e["name"], e["namespace_arg"]) for e in c.log]}
 
 
 def oracle(cell: dict, got: dict) -> str | None:
@@ -125,8 +169,9 @@ def oracle(cell: dict, got: dict) -> str | None:
         return f"unexpected API traffic: {a}"
     if oc == "raised":
         return f"reconcile raised: {got['outcome']['what']}"
+    absent = cell["sit"] in ABSENT
     if not cell["precond"]:
-        if a != "noApiAtAll":
+        if a != "noApiAtAll" or got.get("lookups"):
             return f"preconditions did not pass but the API was used ({a}: {got.get('log')})"
         if oc != got["pkind"]:
             return f"preconditions did not pass ({got['pkind']}) but the outcome is {oc}"
@@ -145,19 +190,21 @@ def oracle(cell: dict, got: dict) -> str | None:
         return "update policy recreate but the function patched"
     if dm and a not in ("none", "delete"):
         return f"delete-if-exists mode did {a}"
-    if dm and (a == "delete") != (cell["sit"] != "absent"):
+    if dm and (a == "delete") != (not absent):
         return f"delete-if-exists mode: object {cell['sit']} but action {a}"
-    if cell["sit"] == "absent" and not dm and (cell["readonly"] or not cell["createEnabled"]):
+    if absent and not dm and (cell["readonly"] or not cell["createEnabled"]):
         if a != "none":
             return f"absent and unmanageable but action {a}"
         if oc != "retry":
             return f"absent and unmanageable but outcome {oc} instead of Retry"
-    if cell["sit"] == "absent" and a in ("patch", "delete"):
-        return f"object absent but action {a}"
-    if cell["sit"] != "absent" and a == "create":
+    if absent and a in ("patch", "delete"):
+        return f"object absent at the load but action {a}"
+    if not absent and a == "create":
         return "object present but the function created"
     if cell["sit"] == "presentMatching" and not dm and a != "none":
         return f"object matches and is owner-reffed but action {a}"
+    if cell["sit"] == "absentConflict" and a == "create" and oc != "retry":
+        return f"lost creation race reported as {oc} instead of Retry"
     return None
 
 
@@ -167,8 +214,10 @@ def compare(ans: dict, got: dict):
     want_delay = None
     if want_oc == "retry":
         want_delay = PRECOND_DELAY if ans["outcome"] == "precond" else int(ans["delay"])
-    model = {"action": ans["action"], "outcome": want_oc, "delay": want_delay}
-    mine = {"action": got["action"], "outcome": got["outcome"]["c"], "delay": got["outcome"].get("delay")}
+    model = {"action": ans["action"], "outcome": want_oc, "delay": want_delay,
+             "discovery-calls": 1 if ans.get("discovers") else 0}
+    mine = {"action": got["action"], "outcome": got["outcome"]["c"], "delay": got["outcome"].get("delay"),
+            "discovery-calls": got.get("lookups", 0)}
     return model, mine
 
 
@@ -178,7 +227,7 @@ def run(tier: str) -> int:
         "Lean 4.33.0 kernel; axioms of every theorem ⊆ {propext, Classical.choice, Quot.sound}",
         "model lean/Koreo/ResourceFn.lean (`decide`, `reconcile`) hand-transcribed from reconcile_resource_function / "
         "reconcile_krm_resource; flag and delay defaults regenerated by harness/extractors/RfDefaults.py",
-        "exhaustive run of all 768 cells x 2 spec variants through the real prepare + reconcile against "
+        "exhaustive run of all 3840 cells x 2 spec variants through the real prepare + reconcile against "
         "harness/cluster.py (in-memory API with merge-patch and a request log)",
         "kr8s 0.20.7 APIObject (create/patch/delete -> call_api), celpy for the precondition and apiConfig expressions, "
         "the comparator validate_match (its answer is an input of the table)",
@@ -199,7 +248,13 @@ def run(tier: str) -> int:
         for variant in ("explicit", "omitted"):
             work.append((idx, cell, variant))
     drv = LeanDriver("C07")
-    got_all = [observe(cell, variant, idx) for idx, cell, variant in work]
+    import gc
+
+    got_all = []
+    for n, (idx, cell, variant) in enumerate(work):
+        got_all.append(observe(cell, variant, idx))
+        if n % 400 == 399:
+            gc.collect()      # the one-off kr8s classes of the plural-omitted runs
     reqs = [{"op": "cell", "flags": got["written"], "precond": cell["precond"], "sit": cell["sit"]}
             for (idx, cell, variant), got in zip(work, got_all)]
     try:
@@ -217,6 +272,9 @@ def run(tier: str) -> int:
         ck.count(f"situation:{cell['sit']}")
         ck.count(f"variant:{variant}")
         ck.count(f"policy:{cell['update']}")
+        ck.count(f"discovery-calls:{got.get('lookups', 0)}")
+        if cell["createOverlay"]:
+            ck.count("create-overlay-written")
         case = {"cell": cell, "variant": variant, "idx": idx, "spec": got["spec"],
                 "impl": {"action": a, "outcome": got["outcome"], "log": got.get("log")}}
         if a in ("create", "patch", "delete"):
@@ -235,9 +293,12 @@ def run(tier: str) -> int:
     ck.cov["cells"] = len(all_cells)
     ck.cov["programs"] = len(work)
     return ck.finish(
-        rule="exhaustive: all 2^5 flag combinations x 3 update policies x 2 precondition results x 4 cluster "
-             "situations = 768 cells, each as a real prepared ResourceFunction in two spec variants (every key "
-             "explicit / every default-valued key omitted), reconciled once against a freshly seeded cluster; "
+        rule="exhaustive: all 2^5 flag combinations x 3 update policies x 2 precondition results x create.overlay "
+             "written or not x apiConfig.plural given or to be discovered (cold cache, a kind of its own) x 5 cluster "
+             "situations (absent, matching, drifted, no owner reference, absent at the load with a competitor creating "
+             "the object before our POST: 409) = 3840 cells, each as a real prepared ResourceFunction in two spec "
+             "variants (every key explicit / every default-valued key omitted), reconciled once against a freshly "
+             "seeded cluster; discovery (lookup_kind) calls are logged as API calls; "
              "non-trivial = the run made a mutating call; distinct by cell+variant",
     )
 
